@@ -1270,6 +1270,8 @@ func buildEnumFieldSchema(pkg *Package, context fieldContext, src protoreflect.F
 		}
 		ref.To = built
 		verifhook.At("ref.linked")
+	} else if _, ok := ref.To.(*EnumSchema); !ok {
+		return nil, fmt.Errorf("schema name %s is used by an enum and by a message or oneof", ref.FullName())
 	}
 
 	var rules *schema_j5pb.EnumField_Rules
